@@ -239,7 +239,9 @@ def check(ctx):
     # Bernoulli::from_ratio(a_weight, checked sum) built by WeightedPair::new (C13 R13.1, re-evaluated here)
     from . import rules_c13
     from .rules_c12 import _Only
-    rules_c13.check(_Only(ctx, {"R13.1": "R06.2", "R13.3": "R06.2"}))
+    # ... and, for the dynamic form, on the configured weights being the weights choose_weighted sees (R13.4: the
+    # constructors store (selector, weight) unchanged, the projection is the weight field)
+    rules_c13.check(_Only(ctx, {"R13.1": "R06.2", "R13.3": "R06.2", "R13.4": "R06.2"}))
     # ---- escape hatches in ec_core ---------------------------------------
     bad = []
     n_uses = 0
